@@ -31,7 +31,7 @@ ASSUMPTIONS = ["the unknown's variables are mapped to objects by the documented 
                "'all' list; other lists use one generic physical point (each schedule's circuit is covered by 'all')",
                "objects handed to calc_prob_dists carry the same on_para_eq_constraint flag as the tomography"]
 BOUNDS = {"quick": "Q1, Q3; povmt m=2..4, qmpt m=2..4 on Q1, m=2..3 (m=4 on one tester set) on Q3; sub-lists: all sizes when "
-                   "<= 6 schedules, else sizes <= k with at most 700 sub-lists (k>=1); deletions of 1 schedule, of 2 when <= 350 lists",
+                   "<= 6 schedules, else sizes <= k with at most 1500 sub-lists (k>=1); deletions of 1 schedule, of 2 when <= 750 lists",
           "thorough": "adds Q2 with product testers (qmpt m=2 on 4 tester sets, m=3..4 on two), Q3 qmpt m=4 everywhere; sub-list cap "
                       "4000, deletions of 2 schedules when <= 2000 lists"}
 EXHAUSTIVE = {"quick": True, "thorough": True}
@@ -40,7 +40,7 @@ CHUNK = 1
 
 
 def sub_cap(tier):
-    return 700 if tier == "quick" else 4000
+    return 1500 if tier == "quick" else 4000
 
 
 def families(tier, seed):
